@@ -44,6 +44,12 @@ func encodeXterm(key vaxis.Key, deckpam bool, decckm bool) string {
 			}
 		}
 
+		if key.Text != "" {
+			// the text the key produced: a whole grapheme cluster,
+			// or a character other than the one the key is named
+			// after (AltGr, Caps Lock, composed text)
+			return key.Text
+		}
 		if key.Keycode < unicode.MaxRune {
 			// Unicode keys
 			return string(key.Keycode)
